@@ -134,6 +134,10 @@ class C03(common.Spec):
             ns['calc_output'] = calc_output
         try:
             cls = type('GenFSM', (edzed.FSM,), ns)
+            if ins.get('subclass'):
+                # the application derives its own class from the FSM class: tables, conditions and
+                # actions are inherited
+                cls = type('SubFSM', (cls,), {})
         except Exception as err:
             return dict(class_ok=False, class_err=enum_of(err), events=[])
 
@@ -359,6 +363,7 @@ def gen_case(rng, nstates=None):
         on_exit=[s for s in states if rng.random() < 0.5],
         on_notrans=rng.random() < 0.6,
         cond_objects=rng.random() < 0.4,
+        subclass=rng.random() < 0.2,
         on_exit_bad=[s for s in states if rng.random() < 0.3] if rng.random() < 0.25 else [],
         # never the initial state: the FSM must get an output at all
         keep=[s for s in states[1:] if rng.random() < 0.5] if rng.random() < 0.3 else [])
